@@ -567,7 +567,12 @@ fn supervise(args: &[String]) {
                         if o.kind.is_failure() {
                             let e = s
                                 .fails
-                                .entry((o.kind.name().to_string(), o.loc.clone()))
+                                // one entry per panic location; resource failures (time-out, allocation,
+                                // stack overflow, abort) are told apart by their input class instead
+                                .entry((
+                                    if o.kind == Kind::Panic { "panic".to_string() } else { "resource".to_string() },
+                                    if o.kind == Kind::Panic { o.loc.clone() } else { label.clone() },
+                                ))
                                 .or_insert((0, *idx, label.clone(), o.clone()));
                             e.0 += 1;
                             if *idx < e.1 {
@@ -620,7 +625,8 @@ fn supervise(args: &[String]) {
         for smp in &s.samples {
             println!("SAMPLE {} {}", c.name, hexs(smp));
         }
-        for ((kind, loc), (count, idx, label, o)) in &s.fails {
+        for ((_group, _k), (count, idx, label, o)) in &s.fails {
+            let (kind, loc) = (o.kind.name(), &o.loc);
             let (input, _) = gen::gen_case(&w, c, seed, *idx);
             // confirm + shrink in child processes (skipped with --no-shrink: the caller decides
             // which failures are new and asks for `robust shrink` only for those)
